@@ -11,6 +11,8 @@ import Sekai.Driver.Ubi
 import Sekai.Driver.Collect
 import Sekai.Driver.Auth
 import Sekai.Driver.Ident
+import Sekai.Driver.Ante
+import Sekai.Driver.MultiStake
 /-! `sekai-model`: the model side of the correspondence check. One op per input line
 (`<domain> <op> <args…>`), one canonical observation per output line. Core Lean only. -/
 open Sekai
@@ -26,6 +28,8 @@ structure World where
   c18 : Driver.Spend.St := {}   -- spending pools + UBI + collectives (domains spend / ubi / coll share one state)
   auth : Driver.Auth.St := {}
   ident : Driver.Ident.St := {}
+  ante : Driver.Ante.St := {}
+  ms : Driver.MultiStake.St := {}
 
 def dispatch (w : World) (line : String) : World × String :=
   let toks := (line.trimAscii.toString.splitOn " ").filter (· ≠ "")
@@ -43,6 +47,8 @@ def dispatch (w : World) (line : String) : World × String :=
   | "coll" :: rest => let (s, o) := Driver.Collect.step w.c18 rest; ({ w with c18 := s }, o)
   | "auth" :: rest => let (s, o) := Driver.Auth.step w.auth rest; ({ w with auth := s }, o)
   | "ident" :: rest => let (s, o) := Driver.Ident.step w.ident rest; ({ w with ident := s }, o)
+  | "ante" :: rest => let (s, o) := Driver.Ante.step w.ante rest; ({ w with ante := s }, o)
+  | "ms" :: rest => let (s, o) := Driver.MultiStake.step w.ms rest; ({ w with ms := s }, o)
   | ["reset"] => ({}, "ok")
   | [] => (w, "")
   | _ => (w, "bad-op")
